@@ -83,7 +83,7 @@ def validate_total(mod, pid: str, records: list[dict], trace_path: pathlib.Path,
         return tlc.validate_trace(tmod, tcfg, trace_path, tag=f"{pid}-trace", env=env)
     except tlc.MachineryError as first:
         if "Error: The error occurred when TLC was evaluating" not in str(first) and "Error: Evaluating" not in str(first) \
-                and "TLC threw an unexpected exception" not in str(first):
+                and "TLC threw an unexpected exception" not in str(first) and "TLC was unable to fingerprint" not in str(first):
             raise
         merged = {"records": len(records), "fails": [], "seen": [], "missing": [], "wall_s": 0.0, "tlc_states": 0,
                   "cmd": "bisected"}
@@ -92,7 +92,7 @@ def validate_total(mod, pid: str, records: list[dict], trace_path: pathlib.Path,
         while stack:
             chunk = stack.pop()
             runs += 1
-            if runs > 60:
+            if runs > 60 + len(records) // 2:
                 raise first
             p = work / f"bisect-{runs}.ndjson"
             write_trace(chunk, p)
